@@ -411,6 +411,24 @@ impl<'a, 'e> Rewriter<'a, 'e> {
             }
             return;
         }
+        if name == "format" {
+            // R19: format!(fmt, args..) -> shim_format((&(arg),..)): arguments still evaluated, the text is not modelled
+            let args = args.unwrap_or_else(|| fail(format!("{}:{}: cannot parse arguments of format!", self.src.rel, self.src.line_of(a))));
+            let mut pieces = vec![Self::lit("shim_format((")];
+            for (i, e) in args.iter().enumerate() {
+                if i == 0 { if let syn::Expr::Lit(_) = e { continue; } }
+                let e = if let syn::Expr::Assign(asg) = e { &*asg.right } else { e };
+                pieces.push(Self::lit("&("));
+                pieces.push(self.sub(e.span()));
+                pieces.push(Self::lit("), "));
+            }
+            pieces.push(Self::lit("))"));
+            pieces.push(Self::lit(semi));
+            self.ed.replace(a, b, pieces, "R7");
+            self.fire("R7");
+            for e in &args { self.visit_expr(e); }
+            return;
+        }
         if name == "write" || name == "writeln" {
             // R7b: write!(f, fmt, args..) -> shim_fmt_write(f, (&(arg),..)); arguments still evaluated, result kept
             let args = args.unwrap_or_else(|| fail(format!("{}:{}: cannot parse arguments of {}!", self.src.rel, self.src.line_of(a), name)));
@@ -999,6 +1017,24 @@ fn process_item(ctx: &mut Ctx, file: &str, name: &str, opts: &Opts, tfile: &str,
     }
     let mut ed = Editor::new(&src.text);
     let mut notes = vec![];
+    let mut ed_static: Option<usize> = None;
+    // R20: `const X: &T = ..` -> `const X: &'static T = ..` (the elided lifetime of a const IS 'static; Verus wants it spelled out)
+    for it in &src.ast.items {
+        if let syn::Item::Const(c) = it {
+            if c.ident == name {
+                if let syn::Type::Reference(r) = &*c.ty {
+                    if r.lifetime.is_none() {
+                        let amp = src.range(r.and_token.span());
+                        ed_static = Some(amp.1);
+                    }
+                }
+            }
+        }
+    }
+    if let Some(pos) = ed_static {
+        ed.insert(pos, "'static ".to_string(), 0, "R20");
+        notes.push("R20: elided 'static lifetime spelled out".to_string());
+    }
     if let (Some(v), Some(k)) = (opts.get("vis"), kw) {
         // a private struct is made visible to the spec functions of the unit (single module: no effect on behaviour)
         ed.insert(src.range(k).0, format!("{} ", v), 0, "vis");
